@@ -905,6 +905,211 @@ def multiPost (p : KP) : HdrOutcome :=
 
 def parseMultiHeader (text : Str) : HdrOutcome := hdrParse multiLine multiPost multiHeader0 text
 
+/-! ### Interfile projection-data header: TOF keys and ring-difference keys in ANY order
+
+`InterfilePDFSHeader` (src/IO/InterfileHeader.cxx:562) as far as the SIZES of the projection data go: the members that decide how
+many bins the returned `ProjDataFromStream` will read.  As for the image header, the members are the variables of a `KP` and a
+line is handled by the generic `KP.parseLine` followed by the call-back of its keyword, so nothing assumes the writer's key order.
+Members without a keyword (`num_segments`, `num_timing_poss`, `num_views`, `num_bins`, `num_rings_per_segment`) are entries whose
+name contains capitals (no standardised keyword can match them).  The three scanner timing keys are `int`/`float` in the C++;
+the model keeps integers (the `hdr pdfs` operations of the harness give them integer values): only `> 0` / `< 0` is used.
+NOT modelled: the checks of `InterfileHeader::post_processing` on keys outside the model (type of data, number format, patient
+position, PET data type...), the geometry checks of the `ProjDataInfo` constructors and of `Scanner::check_consistency`, the
+scanner keys other than the timing ones.  The scanner that `originating system` names (`Scanner::get_scanner_from_name`) enters
+as the parameter `Guess`. -/
+
+def kMinRD : Str := "minimum ring difference per segment".toList
+def kMaxRD : Str := "maximum ring difference per segment".toList
+def kTofMash : Str := "tof mashing factor".toList
+def kMaxTof : Str := "maximum number of (unmashed) tof time bins".toList
+def kTofSize : Str := "size of unmashed tof time bins (ps)".toList
+def kTofRes : Str := "tof timing resolution (ps)".toList
+def kTofOrder : Str := "tof bin order".toList
+def kGeometry : Str := "scanner geometry (blocksoncylindrical/cylindrical/generic)".toList
+def kNumSegments : Str := "NUM SEGMENTS".toList
+def kNumTimingPoss : Str := "NUM TIMING POSS".toList
+def kNumViews : Str := "NUM VIEWS".toList
+def kNumBins : Str := "NUM BINS".toList
+def kRingsPerSeg : Str := "NUM RINGS PER SEGMENT".toList
+
+/-- the modelled members of a freshly constructed `InterfilePDFSHeader` (InterfileHeader.cxx:100 and :562-676), with the three
+    deprecated aliases of the TOF keys (`#if STIR_VERSION < 070000`).  `num_timing_poss` is NOT initialised by the C++
+    constructor; it is read only after `find_storage_order` has set it (`pdfsPost` reads it behind the length checks, which
+    fail while `num_segments` is still -1), so the 0 here is never observed. -/
+def pdfsHeader0 : KP :=
+  let keys : List (Str × Action × Var) :=
+    [("INTERFILE".toList, .start, .none),
+     ("END OF INTERFILE".toList, .stop, .none),
+     (kNumDims, .set, .int 2),
+     (kMatrixSize, .set, .vInts [[], []]),
+     (kLabels, .set, .vAscii [[], []]),
+     (kMinRD, .set, .ints []),
+     (kMaxRD, .set, .ints []),
+     ("TOF mashing factor".toList, .set, .int 1),
+     ("Maximum number of (unmashed) TOF time bins".toList, .set, .int (-1)),
+     ("TOF bin order".toList, .set, .ints []),
+     ("Size of unmashed TOF time bins (ps)".toList, .set, .int (-1)),
+     ("TOF timing resolution (ps)".toList, .set, .int (-1)),
+     ("Scanner geometry (BlocksOnCylindrical/Cylindrical/Generic)".toList, .set, .ascii "Cylindrical".toList)]
+  let p : KP := keys.foldl (fun p k => p.addKey k.1 k.2.1 k.2.2) {}
+  let p := (((p.addAlias "TOF mashing factor".toList "%TOF mashing factor".toList false).addAlias
+              "Maximum number of (unmashed) TOF time bins".toList "Number of TOF time bins".toList false).addAlias
+              "Size of unmashed TOF time bins (ps)".toList "Size of timing bin (ps)".toList false).addAlias
+              "TOF timing resolution (ps)".toList "timing resolution (ps)".toList false
+  { p with kmap := p.kmap ++ [{ key := kNumSegments, action := .ignore, var := .int (-1) },
+                              { key := kNumTimingPoss, action := .ignore, var := .int 0 },
+                              { key := kNumViews, action := .ignore, var := .int 0 },
+                              { key := kNumBins, action := .ignore, var := .int 0 },
+                              { key := kRingsPerSeg, action := .ignore, var := .ints [] }] }
+
+def getInts (m : List Entry) (k : Str) : List Int :=
+  match getVar m k with
+  | .ints l => l
+  | _ => []
+
+/-- `stop_parsing()` -/
+def KP.stop (p : KP) : KP := { p with parsing := false }
+
+/-- `InterfilePDFSHeader::find_storage_order` (InterfileHeader.cxx:693): `(true, _)` = "already found (or error)", the parser
+    has been stopped; `(false, _)` = found now.  A 4-D header RESETS `tof_mash_factor` to 0 here, i.e. at the first
+    ring-difference key: a `TOF mashing factor` line further down the header overwrites the reset.  (`matrix_size[dim]`,
+    `matrix_labels[dim]` for `dim < num_dimensions` are inside the tables: `read_matrix_info` has resized them.) -/
+def findStorageOrder (p : KP) : Bool × KP :=
+  let m := p.kmap
+  let nd := getInt m kNumDims
+  if nd ≠ 4 ∧ nd ≠ 5 then (true, p.stop)
+  else
+    match getVar m kMatrixSize, getVar m kLabels with
+    | .vInts ms, .vAscii labels =>
+      let size (d : Nat) : Int := (ms.getD d []).headD 0
+      let label (d : Nat) : Str := labels.getD d []
+      if (List.range nd.toNat).any (fun d => (ms.getD d []).isEmpty) then (true, p.stop)
+      else
+        let tof : Option KP :=
+          if nd = 4 then some ((p.setKey kNumTimingPoss (.int 1)).setKey kTofMash (.int 0))
+          else if label 4 == "timing positions".toList then some (p.setKey kNumTimingPoss (.int (size 4)))
+          else none
+        match tof with
+        | none => (true, p.stop)
+        | some p1 =>
+          if label 0 != "tangential coordinate".toList then (true, p1.stop)
+          else
+            let p2 := p1.setKey kNumBins (.int (size 0))
+            if label 3 == "segment".toList then
+              let p3 := p2.setKey kNumSegments (.int (size 3))
+              if label 1 == "axial coordinate".toList && label 2 == "view".toList then
+                (false, (p3.setKey kNumViews (.int (size 2))).setKey kRingsPerSeg (.ints (ms.getD 1 [])))
+              else if label 1 == "view".toList && label 2 == "axial coordinate".toList then
+                (false, (p3.setKey kNumViews (.int (size 1))).setKey kRingsPerSeg (.ints (ms.getD 2 [])))
+              else (true, p3.stop)
+            else (true, p2.stop)
+    | _, _ => (true, p.stop)
+
+/-- `InterfilePDFSHeader::resize_segments_and_set` (InterfileHeader.cxx:679), the call-back of both ring-difference keys, for a
+    line whose keyword is `kw`.  `none` = `resize` with a negative count (`std::length_error`) or `error()` in `set_variable`. -/
+def resizeSegmentsAndSet (p : KP) (kw line : Str) : Option KP :=
+  let p1 : Option KP :=
+    if getInt p.kmap kNumSegments < 0 then
+      match findStorageOrder p with
+      | (false, q) =>
+        let S := getInt q.kmap kNumSegments
+        if S < 0 then none
+        else some ((q.setKey kMinRD (.ints (resizeList (getInts q.kmap kMinRD) S.toNat 0))).setKey kMaxRD
+                     (.ints (resizeList (getInts q.kmap kMaxRD) S.toNat 0)))
+      | (true, q) => some q
+    else some p
+  match p1 with
+  | none => none
+  | some p1 => if getInt p1.kmap kNumSegments ≥ 0 then processLine p1 kw line else some p1
+
+/-- one line of an Interfile projection-data header: `process_key` with the call-backs (`read_matrix_info`,
+    InterfileHeader.cxx:397, for `number of dimensions`; `resize_segments_and_set` for the ring-difference keys). -/
+def pdfsLine (p : KP) (line : Str) : Option KP :=
+  let kw := p.keywordOf line
+  if kw == kMinRD || kw == kMaxRD then resizeSegmentsAndSet p kw line
+  else
+    match p.parseLine line with
+    | none => none
+    | some p' =>
+      if kw == kNumDims then
+        let n := getInt p'.kmap kNumDims
+        if n < 0 then none else some ((p'.resizeKey kLabels n.toNat).resizeKey kMatrixSize n.toNat)
+      else some p'
+
+/-- the scanner named by `originating system`: `known` = recognised and not `User_defined_scanner`; then its three timing values -/
+structure Guess where
+  known : Bool
+  maxTof : Int
+  sizePos : Int
+  resPos : Int
+  deriving Repr, DecidableEq, Inhabited
+
+inductive PdfsOutcome
+  | rejected                -- `parse()` returned false
+  | error                   -- an exception left `parse()` (segment 0 missing, `resize` with a negative count, ...)
+  | errMash                 -- `ProjDataInfo::set_tof_mash_factor`: mashing factor larger than the scanner's number of TOF bins
+  | errEven                 -- `ProjDataInfo::set_tof_mash_factor`: "Number of TOF bins should be an odd number"
+  | errTof                  -- the final check of `post_processing`: TOF bins of the geometry ≠ TOF bins the header declares
+  | diverges
+  | ok (numTimingPoss tofBins geomMash numSegments numViews numBins : Int) (rings : List Int)   -- `geomMash`: `ProjDataInfo::get_tof_mash_factor()`
+  deriving Repr, DecidableEq, Inhabited
+
+/-- `ProjDataInfo::set_tof_mash_factor` (src/buildblock/ProjDataInfo.cxx:174) for a scanner with `maxTof` unmashed bins that
+    `is_tof_ready()` or not: the number of TOF bins of the geometry (`Except`: the two `error()` calls). -/
+def tofBinsOf (tofReady : Bool) (maxTof mash : Int) : Except PdfsOutcome Int :=
+  if tofReady && mash > 0 then
+    if mash > maxTof then .error .errMash
+    else
+      let n := Int.tdiv maxTof mash
+      let mn := -(Int.tdiv n 2)
+      let mx := mn + n - 1
+      let num := mx - mn + 1
+      if Int.tmod num 2 = 0 then .error .errEven else .ok num
+  else .ok 1
+
+/-- `InterfilePDFSHeader::post_processing` (InterfileHeader.cxx:969) as far as the sizes go: the three length checks and the
+    segment numbering (`pdfsSegments`), the `TOF bin order` check (:1055), the timing values of the scanner filled in from the
+    guessed scanner (:1135), `Scanner::is_tof_ready` (Scanner.inl:263), the TOF bins of the geometry (only the two cylindrical
+    `ProjDataInfo` constructors get `tof_mash_factor`, :1431-1459), and the final check (:1461). -/
+def pdfsPost (g : Guess) (p : KP) : PdfsOutcome :=
+  let m := p.kmap
+  match getVar m kMatrixSize with
+  | .vInts ms =>
+    -- InterfileHeader::post_processing: every dimension has a size, all sizes positive
+    if ms.isEmpty || ms.any (fun l => l.isEmpty || l.any (· ≤ 0)) then .rejected
+    else
+      match pdfsSegments { numSegments := getInt m kNumSegments, minRD := getInts m kMinRD, maxRD := getInts m kMaxRD,
+                           ringsPerSeg := getInts m kRingsPerSeg } with
+      | .rejected => .rejected
+      | .error => .error
+      | .ok _ _ =>
+        let ntp := getInt m kNumTimingPoss
+        let order := getInts m kTofOrder
+        if !order.isEmpty && (order.length : Int) ≠ toU32 ntp then .rejected
+        else
+          let fill (v gv : Int) : Int := if g.known && g.maxTof > 0 && g.sizePos > 0 && g.resPos > 0 && v < 0 then gv else v
+          let maxTof := fill (getInt m kMaxTof) g.maxTof
+          let sz := fill (getInt m kTofSize) g.sizePos
+          let res := fill (getInt m kTofRes) g.resPos
+          let ready := maxTof > 0 && sz > 0 && res > 0
+          let mash := if getVar m kGeometry == .ascii "Cylindrical".toList then getInt m kTofMash else 0
+          match tofBinsOf ready maxTof mash with
+          | .error e => e
+          | .ok bins =>
+            if bins ≠ ntp then .errTof
+            else .ok ntp bins (if ready && mash > 0 then mash else 0) (getInt m kNumSegments) (getInt m kNumViews)
+                   (getInt m kNumBins) (getInts m kRingsPerSeg)
+  | _ => .rejected
+
+/-- `InterfilePDFSHeader().parse(text)` for a header whose `originating system` names the scanner `g` -/
+def parsePdfsHeader (g : Guess) (text : Str) : PdfsOutcome :=
+  let o := pdfsHeader0.parseWith pdfsLine text
+  match o.tag with
+  | .diverges => .diverges
+  | .error => .error
+  | .ok false => .rejected
+  | .ok true => pdfsPost g o.kp
+
 /-! ### `ParsingObject`: copies, assignment, destruction (src/buildblock/ParsingObject.cxx)
 
 A `ParsingObject` has data members, a `KeyParser parser` and the flag `keymap_is_initialised`.  `initialise_keymap()` of the
